@@ -1480,6 +1480,7 @@ func checkC08(c *Ctx, r *Report) {
 	c.checkTextDelegate(r, jt, tt, depthF, writtenF, jsonF, lastF, toks, mainEsc)
 	c.checkTextHeader(r, ro, jt)
 	c.checkConfigBounds(r, ro, "C08.width")
+	c.checkTruncation(r, ro, "C08.truncate", 3)
 	// "no field key or value can introduce a line break or a raw control character" rests on the shared escaper
 	sub := newReport("C09", r.Tier)
 	checkC09(c, sub)
